@@ -23,8 +23,16 @@ use std::io::Error;
 use std::mem::MaybeUninit;
 use std::os::unix::io::AsRawFd;
 use std::ptr;
+#[cfg(not(sighook_verif))]
 use std::sync::atomic::{AtomicBool, Ordering};
+#[cfg(not(sighook_verif))]
 use std::sync::{Arc, Mutex, PoisonError};
+#[cfg(sighook_verif)]
+use signal_hook_registry::verif::{self, AtomicBool, Mutex};
+#[cfg(sighook_verif)]
+use std::sync::atomic::Ordering;
+#[cfg(sighook_verif)]
+use std::sync::{Arc, PoisonError};
 
 use libc::{self, c_int};
 
@@ -324,6 +332,8 @@ where
             let nowait_flag = libc::MSG_NONBLOCK;
             #[cfg(not(target_os = "aix"))]
             let nowait_flag = libc::MSG_DONTWAIT;
+            #[cfg(sighook_verif)]
+            verif::point(verif::Op::Syscall, self.read.as_raw_fd() as usize, 2);
             while libc::recv(
                 self.read.as_raw_fd(),
                 buff.as_mut_ptr() as *mut libc::c_void,
